@@ -1,7 +1,6 @@
 package main
 
 import (
-	"go/ast"
 	"go/constant"
 	"go/token"
 	"strings"
@@ -319,32 +318,27 @@ func runC04(c *Ctx) {
 	c.Ok("R2.kinds", "ErrorType|constants pairwise distinct", "-", itoa(len(m.Kinds))+" constants")
 	// String() texts of the five kinds Run reports
 	if p := w.ByPath[RepoMod+"/"+gensignPkg]; p != nil {
+		// the text of each kind: ErrorType.String() run on every kind constant and on a value that is none of them
+		// (a switch, or a lookup in a package-level table with a fallback: finitemap.go)
 		texts := map[string]string{}
 		def := ""
-		if fd := funcDecl(p, "ErrorType.String"); fd != nil {
-			ast.Inspect(fd.Body, func(n ast.Node) bool {
-				cc, ok := n.(*ast.CaseClause)
-				if !ok {
-					return true
+		if sf := w.Method(gensignPkg, "ErrorType", "String"); sf != nil && sf.Blocks != nil {
+			c.Saw(sf)
+			strOf := func(vals []ssa.Value, ok bool) (string, bool) {
+				if !ok || len(vals) != 1 {
+					return "", false
 				}
-				txt := ""
-				for _, st := range cc.Body {
-					if rs, ok := st.(*ast.ReturnStmt); ok && len(rs.Results) == 1 {
-						if v := constOf(p, rs.Results[0]); v != nil && v.Kind() == constant.String {
-							txt = constant.StringVal(v)
-						}
-					}
+				if vals[0] == nil {
+					return "", true
 				}
-				if cc.List == nil {
-					def = txt
+				return strConst(vals[0])
+			}
+			for name, kv := range m.Kinds {
+				if t, ok := strOf(evalParamFuncW(w, sf, constant.MakeInt64(kv), false)); ok {
+					texts[name] = t
 				}
-				for _, e := range cc.List {
-					if id, ok := e.(*ast.Ident); ok {
-						texts[id.Name] = txt
-					}
-				}
-				return true
-			})
+			}
+			def, _ = strOf(evalParamFuncW(w, sf, nil, true))
 		}
 		five := []string{"AllAuthFailed", "HandlerGenCSRErr", "SignerSignErr", "AgentOpCertErr", "Panic"}
 		used := map[string]string{}
